@@ -856,7 +856,9 @@ func (g *gen) condTest(d int) ex {
 }
 
 func (g *gen) stableCallee() string {
-	if v := g.pickVar(func(v *variable) bool { return v.k == kFn && v.arity >= 1 && !v.gen && (v.decl == "fn" || v.decl == "const") }); v != nil && g.r.Bool() {
+	if v := g.pickVar(func(v *variable) bool {
+		return v.k == kFn && v.arity >= 1 && !v.gen && (v.decl == "fn" || v.decl == "const")
+	}); v != nil && g.r.Bool() {
 		return v.name
 	}
 	return g.host()
